@@ -19,6 +19,17 @@ FLAG = "edgegraph.structure.vertex.Vertex"
 MEMO = "_Vertex__qa_nb_cache"
 
 
+def warm_memo(h, v, ghost):
+    """put a ghost entry into the vertex's memo *as the tree represents it* (the dictionary object the constructor made is kept:
+    it may be an instance of a private dict subclass)"""
+    memo = h.field(v, MEMO)
+    pair = [Seq([Tok(1, "some-key")], "tuple"), ghost]
+    if isinstance(memo, DictV):
+        memo.pairs = [pair]
+    else:
+        h.field(v, MEMO, DictV([pair]))
+
+
 # ------------------------------------------------------------------------------- model heap
 class Model:
     def __init__(self):
@@ -180,6 +191,9 @@ class Pre:
     def __init__(self, h: H, lcls, ends, memo="empty", flag=False, segs=True, vcls="Vertex"):
         self.h = h
         self.lcls, self.ends = lcls, ends
+        if getattr(h, "aux", None):
+            self._build_through_api(lcls, ends, memo, flag, vcls)
+            return
         key = ("S", lcls, vcls)
         pool = h.rollback(key)
         if pool is None:
@@ -213,7 +227,7 @@ class Pre:
             for r, v in V.items():
                 g = Seq([Tok(0, "stale-answer")], "list")
                 self.ghost[r] = g
-                h.field(v, MEMO, DictV([[Seq([Tok(1, "some-key")], "tuple"), g]]))
+                warm_memo(h, v, g)
         vcls = h.fn(FLAG)
         if "NEIGHBOR_CACHING" not in vcls.dict:
             from sa.src import SourceError
@@ -228,6 +242,44 @@ class Pre:
             self.model.lclass[n] = l.cls.name
         self.pre = copy.deepcopy(self.model.as_dict())
         self.skip = {h.actual["links"], h.actual["ends"], h.actual["memo"]}
+        self.other_pre = other_fields({**self.V, **self.links}, self.skip)
+
+    def _build_through_api(self, lcls, ends, memo, flag, vcls):
+        """The tree keeps auxiliary state next to the role fields (h.aux): the same pre-state, but reached by the public calls that
+        reach it (construct, unlink_from until empty, add_vertex per end) so that whatever else the objects keep is consistent.
+        No opaque segments then: the step is decided on exactly these concrete states."""
+        h = self.h
+        I = h.I
+        h.reset()
+        V = {r: h.new(vcls, r) for r in VROLES + ("d",)}
+        Mk = h.new("DirectedEdge", "M", V["a"], V["d"])
+        L = h.new(lcls, "L")
+        for x in list(L.fields["_vertices"].items):
+            h.call(I.getattr(L, "unlink_from"), x)
+        for r in ends:
+            h.call(I.getattr(L, "add_vertex"), V[r] if r else None)
+        want_links = {r: (["M"] if r in ("a", "d") else []) + (["L"] if r in ends else []) for r in V}
+        if names(L.fields["_vertices"]) != [r for r in ends] or any(names(V[r].fields["_links"]) != want_links[r] for r in V):
+            raise Unknown(f"pre-state {lcls}{list(ends)} is not reached by construct / unlink_from / add_vertex in this tree (the history engine decides)")
+        for r in ("a", "b"):
+            V[r].fields["colour"] = Tok(50, "user-attribute")
+        self.V, self.links = V, {"L": L, "M": Mk}
+        self.ghost = {}
+        if memo == "warm":
+            for r, v in V.items():
+                g = Seq([Tok(0, "stale-answer")], "list")
+                self.ghost[r] = g
+                warm_memo(h, v, g)
+        h.fn(FLAG).dict["NEIGHBOR_CACHING"] = bool(flag)
+        h.settle()
+        self.model = Model()
+        for r in V:
+            self.model.vlinks[r] = names(V[r].fields["_links"])
+        for n, l in self.links.items():
+            self.model.lverts[n] = names(l.fields["_vertices"])
+            self.model.lclass[n] = l.cls.name
+        self.pre = copy.deepcopy(self.model.as_dict())
+        self.skip = {h.actual["links"], h.actual["ends"], h.actual["memo"]} | {k for ks in h.aux.values() for k in ks}
         self.other_pre = other_fields({**self.V, **self.links}, self.skip)
 
     def arg(self, r):
@@ -348,7 +400,12 @@ def core_runs(h, maxlen, memo="empty", flag=False, res=None, classes=LCLASSES, v
     for lcls in classes:
         for ends in shapes(maxlen):
             for op, r in core_ops(lcls):
-                p = Pre(h, lcls, ends, memo, flag, vcls=vcls)
+                try:
+                    p = Pre(h, lcls, ends, memo, flag, vcls=vcls)
+                except Unknown as u:
+                    if res is not None:
+                        res.note(f"pre-state skipped: {u}")
+                    break
                 try:
                     out, mr = do_core(p, op, r)
                 except Unknown as u:
@@ -451,6 +508,9 @@ class PreC:
 
     def __init__(self, h, joins, selfloop=False, kpos=0, memo="empty", flag=False, brev=False, half=False):
         self.h = h
+        if getattr(h, "aux", None):
+            self._build_through_api(joins, selfloop, kpos, memo, flag, brev, half)
+            return
         key = ("C", tuple(c for c, _ in joins), half)
         pool = h.rollback(key)
         if pool is None:
@@ -495,7 +555,7 @@ class PreC:
             for r, v in V.items():
                 g = Seq([Tok(0, "stale-answer")], "list")
                 self.ghost[r] = g
-                h.field(v, MEMO, DictV([[Seq([Tok(1, "some-key")], "tuple"), g]]))
+                warm_memo(h, v, g)
         h.fn(FLAG).dict["NEIGHBOR_CACHING"] = bool(flag)
         h.settle()
         self.model = Model()
@@ -518,6 +578,53 @@ class PreC:
                 o.name = f"new{i}:{o.cls.name}"   # numbered among the links allocated by the call
                 links[o.name] = o
         return project(self.V, links), links
+
+
+def _prec_api(self, joins, selfloop, kpos, memo, flag, brev, half):
+    """PreC reached through the constructors only (the tree keeps auxiliary state, h.aux); links are created in the order in
+    which `a` is to list them."""
+    h = self.h
+    if brev:
+        raise Unknown("ends listing parallel links in different orders: not built through constructors alone")
+    h.reset()
+    V = {r: h.new("Vertex", r) for r in VROLES}
+    self.V = V
+    a, b, c = V["a"], V["b"], V["c"]
+    if selfloop:
+        b = a
+    self.b = "a" if selfloop else "b"
+    self.links = {}
+    plan = [("J", i) for i in range(len(joins))]
+    plan.insert(min(kpos, len(plan)), ("K", None))
+    if half:
+        plan.insert(0, ("N", None))
+    for kind, i in plan:
+        if kind == "J":
+            cls, orient = joins[i]
+            l = h.new(cls, f"J{i}", *((a, b) if orient == "ab" else (b, a)))
+        elif kind == "K":
+            l = h.new("DirectedEdge", "K", a, c)
+        else:
+            l = h.new("DirectedEdge", "N", a, None)
+        self.links[l.name] = l
+    self.ghost = {}
+    if memo == "warm":
+        for r, v in V.items():
+            g = Seq([Tok(0, "stale-answer")], "list")
+            self.ghost[r] = g
+            warm_memo(h, v, g)
+    h.fn(FLAG).dict["NEIGHBOR_CACHING"] = bool(flag)
+    h.settle()
+    self.model = Model()
+    for r in V:
+        self.model.vlinks[r] = names(V[r].fields["_links"])
+    for n, l in self.links.items():
+        self.model.lverts[n] = names(l.fields["_vertices"])
+        self.model.lclass[n] = l.cls.name
+    self.pre = copy.deepcopy(self.model.as_dict())
+
+
+PreC._build_through_api = _prec_api
 
 
 def m_joining(m, a, b):
@@ -571,7 +678,12 @@ def explicit_runs(h, res=None, memo="empty", flag=False, thorough=False):
                         if brev == "half" and fname != "link_from_to":
                             continue
                         for swap in (False, True):
-                            p = PreC(h, joins, selfloop, kpos, memo, flag, brev=(brev is True), half=(brev == "half"))
+                            try:
+                                p = PreC(h, joins, selfloop, kpos, memo, flag, brev=(brev is True), half=(brev == "half"))
+                            except Unknown as u:
+                                if res is not None:
+                                    res.note(f"pre-state skipped: {u}")
+                                continue
                             x, y = ("a", bname) if not swap else (bname, "a")
                             try:
                                 if fname == "link_from_to":
